@@ -42,8 +42,8 @@ def extract_tests(pid, name, group, workdir, log, timeout=3600):
     cmd = ["cargo", "kani", "--features", ",".join(group["features"]), "--target-dir", target,
            "-Z", "concrete-playback", "--concrete-playback=print", "--exact", "--harness", name]
     cmd += group.get("kani_args", [])
-    if group.get("cbmc_args"):
-        cmd += ["-Z", "unstable-options", "--cbmc-args"] + group["cbmc_args"]
+    if group.get("cbmc_args_resolved") or group.get("cbmc_args"):
+        cmd += ["-Z", "unstable-options", "--cbmc-args"] + (group.get("cbmc_args_resolved") or group["cbmc_args"])
     try:
         p = subprocess.run(cmd, cwd=KANI_DIR, env=_env("--cfg rtcm_rs_verif"), capture_output=True, text=True, timeout=timeout)
     except subprocess.TimeoutExpired:
